@@ -41,9 +41,15 @@ whose kernel is the coarsest congruence, the result has no proper quotient and i
 (a symbol and its covers have isomorphic minimal images, hence equal canonical forms).
 Section 9 proves that the Spec's partition-refinement oracle computes the same coarsest
 congruence (`spec_refinement_correct`, `spec_classes_eq_minimal_image_size`).
+Section 10 (`driver_decoding_agrees`) shows that every explored case that passes the driver's
+domain clause satisfies the hypotheses of all theorems and that the driver's Spec view describes the
+symbol the model computes with; section 11 gives cover invariance without side hypotheses for the
+covers the library builds (C05 `IsCoverOf` coverings, `covers::covers`, `oriented_cover`).
 -/
-import DSymVerif.Proofs.MorphismSpecC
+import DSymVerif.Proofs.MorphismDriver
+import DSymVerif.Proofs.MorphismCovers
 import DSymVerif.Props.C03
+import DSymVerif.Props.C05
 
 namespace DSymVerif.C04
 open DSymVerif DSymVerif.Mor DSymVerif.DS DSymVerif.DS.CanonP DSymVerif.SpecC04P
@@ -529,5 +535,80 @@ example := spec_classes_eq_minimal_image_size specEx1 C03.ex1
   (spec_degree_is_model_degree specEx1 C03.ex1 C03.ex1_valid.toValidTables rfl rfl
     (fun _ _ _ _ _ => rfl) (fun _ _ _ _ _ => rfl))
   C03.ex1_valid (by decide) (by decide) ((C03.conn_iff_isConnected C03.ex1_valid.set).1 C03.ex1_conn)
+
+/-! ## 10. every explored case is inside the theorems: the driver's decoding -/
+
+/-- **driver_decoding_agrees**: for every transmitted table that passes the driver's clause
+    `…-in-domain-of-the-theorems` (`DrvC04View.inDomain` = C03's `SpecC03.inDomain`), the driver's
+    decoder `RawSym.toSym` returns a valid symbol `ds` with `is_connected()`, size ≥ 1, dim ≥ 1
+    (C03 `decode_raw_valid`), and the driver's Spec view `specS` of the same tables describes that
+    very symbol: same operations, same degrees (`SpecAgrees`; C03 `agrees_tables` +
+    `spec_degree_is_model_degree`).  So every theorem of this file applies to every explored case
+    without a side hypothesis. -/
+theorem driver_decoding_agrees (r : DSymVerif.Proto.RawSym) (h : DrvC04View.inDomain r = true) :
+    ∃ ds, r.toSym = .ok ds ∧ ValidSym ds ∧ 1 ≤ ds.size ∧ 1 ≤ ds.dim ∧
+      ds.view.isConnected = true ∧ SpecAgrees (DrvC04View.specS r) ds :=
+  driver_decoding r h
+
+example : ∃ r : DSymVerif.Proto.RawSym, DrvC04View.inDomain r = true :=
+  ⟨{ size := 1, dim := 2, op := #[1, 1, 1], v := #[0, 0] }, by decide⟩
+
+/-- … in particular the number the Spec clause `result-size-eq-number-of-coarsest-congruence-classes`
+    compares with the implementation is the size of the model's minimal image, on every in-domain
+    case -/
+theorem driver_minimg_case (r : DSymVerif.Proto.RawSym) (h : DrvC04View.inDomain r = true) :
+    ∃ ds c, r.toSym = .ok ds ∧ minimalImage ds = .ok c ∧
+      SpecC04.classes (DrvC04View.specS r) = c.size := by
+  obtain ⟨ds, hds, hv, hsz, hdim, hconn, hag⟩ := driver_decoding r h
+  obtain ⟨c, hc, hcl⟩ := spec_classes_eq_minimal_image_size _ ds hag hv hsz hdim hconn
+  exact ⟨ds, c, hds, hc, hcl⟩
+
+/-! ## 11. cover invariance for the covers the library builds -/
+
+section
+open DSymVerif.Covers DSymVerif.FG DSymVerif.Cosets DSymVerif.LowIndexP
+
+/-- every covering in the sense of C05 (`IsCoverOf`: the conclusion of `C05.table_cover_is_covering`,
+    `subgroup_cover_is_covering`, `finite_universal_cover_is_covering`; it includes commuting far
+    operations, degree preservation and connectedness with no premise) has the minimal image of its
+    base, up to isomorphism -/
+theorem cover_invariance_covering (ds c : DSymData) (n : Nat) (hs : ValidSym ds) (hsz : 1 ≤ ds.size)
+    (hdim : 1 ≤ ds.dim) (hconn : ds.view.isConnected = true) (h : CoversP.IsCoverOf ds c n) :
+    ∃ qc qs g, minimalImage c = .ok qc ∧ minimalImage ds = .ok qs ∧ IsIso g qs qc :=
+  minimalImage_isCoverOf hs hsz hdim hconn h
+
+/-- **cover_invariance_table_cover**: every symbol in the list returned by `covers::covers(ds, k)`
+    (model `Covers.covers`, enough fuel for the coset-table search) has the minimal image of `ds`
+    up to isomorphism — no hypothesis on degrees or far operations (C05
+    `table_cover_is_covering`) -/
+theorem cover_invariance_table_cover (ds : DSymData) (hs : ValidSym ds) (hsz : 1 ≤ ds.size)
+    (hdim : 1 ≤ ds.dim) (hconn : ds.view.isConnected = true) (k fuel : Nat) :
+    ∃ f, fundamentalGroup ds = .ok f ∧
+      ((BT.dfs (btProblem f.nrGenerators (expandedRelatorSet f.relators) k) (height k)
+          (.ok (Cosets.Table.new f.nrGenerators))).length ≤ fuel →
+        ∃ cs, Covers.covers ds k fuel = .ok cs ∧
+          ∀ c, c ∈ cs → ∃ qc qs g, minimalImage c = .ok qc ∧ minimalImage ds = .ok qs ∧ IsIso g qs qc) := by
+  obtain ⟨f, hf, hrest⟩ := C05.table_cover_is_covering ds hs hsz hdim k fuel
+  refine ⟨f, hf, fun hfuel => ?_⟩
+  obtain ⟨cs, hcs, hall⟩ := hrest hfuel
+  refine ⟨cs, hcs, fun c hc => ?_⟩
+  obtain ⟨_, _, t, _, _, hcov, _⟩ := CoversP.forall₂_mem_right hall c hc
+  exact minimalImage_isCoverOf hs hsz hdim hconn hcov
+
+end
+
+/-- **cover_invariance_oriented_cover**: `oriented_cover(s)` returns, and — provided the result
+    `is_connected()` — it has the minimal image of `s` up to isomorphism; no hypothesis on degrees
+    or far operations (C05 `orientedCover_degrees`, `orientedCover_validSym`) -/
+theorem cover_invariance_oriented_cover (s : DSymData) (hs : ValidSym s) (hsz : 1 ≤ s.size)
+    (hdim : 1 ≤ s.dim) (hconn : s.view.isConnected = true) :
+    ∃ c, orientedCover s = .ok c ∧ (c.view.isConnected = true →
+      ∃ qc qs g, minimalImage c = .ok qc ∧ minimalImage s = .ok qs ∧ IsIso g qs qc) :=
+  minimalImage_orientedCover s hs hsz hdim hconn
+
+example := cover_invariance_oriented_cover C03.ex1 C03.ex1_valid (by decide) (by decide)
+  ((C03.conn_iff_isConnected C03.ex1_valid.set).1 C03.ex1_conn)
+example := cover_invariance_table_cover C03.ex1 C03.ex1_valid (by decide) (by decide)
+  ((C03.conn_iff_isConnected C03.ex1_valid.set).1 C03.ex1_conn) 2 1000
 
 end DSymVerif.C04
